@@ -570,7 +570,29 @@ class Ev:
                 self.env[n] = closed[n]
             else:
                 self.env[n] = P.atom(("after", n, k))
+        self._loop_else(st, k)
+
+    def _loop_else(self, st, k):
+        """for/while ... else: the else block runs only when the loop was not left by break; what it binds is merged with what the
+        loop left behind (a search loop `for ..: if hit: r = i; break` / `else: r = None`)."""
+        if not st.orelse:
+            return
+        if not has_break(st.body):
+            self.block(st.orelse)
+            return
+        nb = P.atom(("nobreak", k))
+        pre, g0 = dict(self.env), self.guards
+        self.guards = g0 + ((nb, True),)
         self.block(st.orelse)
+        self.guards = g0
+        if terminates(st.orelse):
+            self.env = pre
+            self.guards = g0 + ((nb, False),)
+            return
+        for n in assigned_names(st.orelse):
+            a, b = self.env.get(n), pre.get(n)
+            if a is not None and b is not None and a.key() != b.key():
+                self.env[n] = mk_ite(nb, a, b)
 
     def _close_counters(self, info, lc_atoms, ev0):
         """Running counters of a unit-step range loop get closed forms (sum of their per-iteration increment)."""
@@ -648,6 +670,12 @@ class Ev:
                 if lvs:
                     kmin = min(x[2] for x in lvs)
                     return a[2].subs({x: lo + idx for x in lvs if x[2] == kmin})
+        if a and a[0] == "comp" and a[1] in ("ListComp", "GeneratorExp") and len(a) == 4 and len(a[3]) == 1 and a[3][0][0] in ("iter", "zip") and not a[3][0][2]:
+            # the idx-th element of (ELT(x) for x in xs) is ELT(xs[idx])
+            lvs = [x for x in find_atoms(a[2], lambda x: x[0] == "lv" and isinstance(x[2], int) and x[2] >= 1000)]
+            if lvs:
+                kmin = min(x[2] for x in lvs)
+                return a[2].subs({x: idx for x in lvs if x[2] == kmin})
         return P.atom(("sub", it, (idx,)))
 
     def _bind_loop(self, target, iter_node, it: P, k: int, st) -> LoopInfo:
@@ -709,7 +737,7 @@ class Ev:
         self.loops, self.guards = saved_loops, g0
         for n in carried:
             self.env[n] = P.atom(("after", n, k))
-        self.block(st.orelse)
+        self._loop_else(st, k)
 
     def s_With(self, st):
         for item in st.items:
